@@ -82,7 +82,7 @@ Print Assumptions C08_chain_ranges_nested.
    all_samples_good of C08_ranges_invariant_binary64, one step at a time ---- *)
 From Flocq Require Import Core BinarySingleNaN PrimFloat.
 From PV Require Import proofs.FloatFacts proofs.SampleFloat.
-From PV Require Import gen.GenFns proofs.SourceFacts.
+From PV Require Import gen.GenFns model.Iter model.Pipeline proofs.ListLemmas proofs.SrcOpt.
 From PV Require Import proofs.SampleFloat proofs.RangeInst proofs.RatioFloat.
 From PV Require Import model.Basis proofs.BasisFacts.
 From PV Require Import proofs.BasisRun.
@@ -107,10 +107,6 @@ Theorem C08_sample_is_source :
 Proof. exact sample_is_source. Qed.
 Print Assumptions C08_sample_is_source.
 
-Theorem C08_source_translated :
-  gen_fns_problem = ""%string.
-Proof. exact source_translated. Qed.
-Print Assumptions C08_source_translated.
 
 
 Theorem C08_ranges_binary64_unconditional :
@@ -283,4 +279,27 @@ Theorem S_world_operations_are_source :
     v'; w_handles := w_handles NN w; w_calls := w_calls NN w |}).
 Proof. exact world_operations_are_source. Qed.
 Print Assumptions S_world_operations_are_source.
+
+
+Theorem C08_optimiser_source_translated :
+  translated_gen_energy_surface = true /\ translated_gen_test_acceptance = true /\
+    translated_gen_accept_score = true /\ translated_gen_cooling_factor = true /\
+    translated_gen_build = true /\ translated_gen_inner_steps = true /\ translated_gen_loops =
+    true /\ translated_gen_converged = true /\ translated_gen_ratio_update = true /\
+    translated_gen_init = true /\ translated_gen_init_count = true /\ translated_gen_loop_head =
+    true /\ translated_gen_inner_count = true /\ translated_gen_final_ok = true /\
+    translated_gen_mc_step = true /\ translated_gen_end_loop = true /\ translated_gen_clamp =
+    true /\ translated_gen_sample = true /\ translated_gen_reset_value = true /\
+    translated_gen_set_sampled = true.
+Proof. exact optimiser_source_translated. Qed.
+Print Assumptions C08_optimiser_source_translated.
+
+Theorem C08_basis_source_translated :
+  translated_gen_cell_dof = true /\ translated_gen_wyckoff_dof = true /\
+    translated_gen_site_basis = true /\ translated_gen_generate_basis_packed = true /\
+    translated_gen_generate_basis_potential = true /\ translated_gen_initial_length = true /\
+    translated_gen_initial_length_potential = true /\ translated_gen_initial_angle = true /\
+    translated_gen_initial_ratio = true /\ translated_gen_initial_site = true.
+Proof. exact basis_source_translated. Qed.
+Print Assumptions C08_basis_source_translated.
 
